@@ -1,7 +1,7 @@
 SPECIFICATION Spec
 CONSTANTS
   Lists = {"ridx", "rl1", "rl2", "sidx", "ss", "hp"}
-  Faults = {"ok", "refused", "timeout", "status", "empty", "oversize", "trunc", "inv", "invown"}
+  Faults = {"ok", "refused", "timeout", "status", "empty", "oversize", "trunc", "cancel", "inv", "invown"}
   MaxRounds = 3
   CrashAnywhere = FALSE
   Defects = {}
